@@ -125,6 +125,12 @@ Qed.
 Lemma incl_store_in l v h s : incl l (store_in l v h s).
 Proof. unfold store_in. destruct (memN _ _); [apply incl_refl|apply incl_appl, incl_refl]. Qed.
 
+Lemma in_bucket_after_store0 l v h s : memN (s_id s) (map s_id (bucket (store_in l v h s) v h)) = true.
+Proof.
+  rewrite bucket_store_in_same. destruct (memN (s_id s) (map s_id (bucket l v h))) eqn:E0; [exact E0|].
+  rewrite map_app. cbn [map]. apply memN_In. apply in_or_app. right. left. reflexivity.
+Qed.
+
 Lemma check_prepared_own x v h :
   let x' := check_prepared c wm shut x v h in
   E x' = E x /\ tc_v x' = tc_v x /\ flat_map voted_of (sent_of (tc_out x')) = flat_map voted_of (sent_of (tc_out x)) /\
@@ -219,7 +225,8 @@ Record pp_sum (x x' : tc) (v h : N) (ent : ppent) : Prop := {
   ps_D : grows_by (D x) (D x') (v, h);
   ps_Dfacts : In (v, h) (D x') -> In (v, h) (D x) \/ commit_facts x' v h;
   ps_lock : (lockv x' = lockv x /\ (In (v, h) (C x') -> In (v, h) (C x) \/ certC (tc_t x') v h))
-            \/ (lockv x <> Some v /\ lockv x' = Some v /\ hash_at (tc_t x') v = h /\ certP (tc_t x') v h);
+            \/ (lockv x <> Some v /\ lockv x' = Some v /\ hash_at (tc_t x') v = h /\ certP (tc_t x') v h /\
+                In (v, h) (C x') /\ t_c (tc_t x') = store_in (t_c (tc_t x)) v h (my_sig c));
   ps_out : incl (tc_out x) (tc_out x');
   ps_mp : exists to hh, In (OSend to (MP (mk_ref T_PREPARE c hh v h) (my_sig c))) (tc_out x')
 }.
@@ -280,7 +287,7 @@ Proof.
   - rewrite <- B5. exact P10.
   - destruct P11 as [(Q1 & Q2 & Q3)|(Q1 & Q2 & Q3 & Q4 & Q5 & Q6 & Q7 & Q8)].
     + left. unfold lockv in *. rewrite Q1, B1. split; [exact U5|]. rewrite <- B4. exact Q3.
-    + right. unfold lockv in *. rewrite B1, U5 in Q1. auto.
+    + right. unfold lockv in *. rewrite B1, U5 in Q1. rewrite B1, U4 in Q8. auto 10.
   - eapply incl_tran; [|exact Pout]. subst x1 x0' x0. cbn [tc_emit tc_set_t tc_out]. apply incl_tl.
     destruct (has_p _ _ _ _), (has_pp _ _); cbn [tc_emit tc_out]; repeat apply incl_tl; apply incl_refl.
   - do 2 eexists. apply Pout. subst x1. cbn [tc_emit tc_out]. left. reflexivity.
@@ -415,7 +422,8 @@ Record step_sum (e : tev) (x x' : tc) : Prop := {
            (v_view vt <= tc_v x' /\ tc_v x < v_view vt /\ lock_of vt = L x /\ lockv x' = lockv x /\ s_id (v_snd vt) = me /\ own_proof_from x vt);
   ss_Vt_one : forall a b, In a (Vt me x') -> ~ In a (Vt me x) -> In b (Vt me x') -> ~ In b (Vt me x) -> a = b;
   ss_lock : lockv x' = lockv x \/
-            (exists v, lockv x' = Some v /\ lockv x <> Some v /\ v = tc_v x' /\ certP (tc_t x') v (hash_at (tc_t x') v) /\ Vt me x' = Vt me x);
+            (exists v, lockv x' = Some v /\ lockv x <> Some v /\ v = tc_v x' /\ certP (tc_t x') v (hash_at (tc_t x') v) /\ Vt me x' = Vt me x /\
+                       In (v, hash_at (tc_t x') v) (C x') /\ has_c (tc_t x') v (hash_at (tc_t x') v) me = true);
   ss_p : forall v h s, In (v, h, s) (t_p (tc_t x')) -> In (v, h, s) (t_p (tc_t x)) \/ (s = my_sig c /\ In (v, h) (E x')) \/
            (exists r wm' sh', e = TMsg (MP r s) wm' sh' /\ r_type r = T_PREPARE /\ r_view r = v /\ r_hash r = h);
   ss_c : forall v h s, In (v, h, s) (t_c (tc_t x')) -> In (v, h, s) (t_c (tc_t x)) \/
@@ -548,7 +556,8 @@ Proof.
     + left. rewrite Q1. subst xa. reflexivity.
     + right. exists v. unfold lockv in *. subst xa. cbn [tc_set_t tc_t store_p t_prepared] in Q1. split; [exact Q2|]. split; [exact Q1|].
       destruct Q4 as (en & G1 & G2). pose proof (Gpp v en G1) as G1'. destruct (si_pp _ _ SI v en G1') as [_ Hle].
-      split; [rewrite P2; cbn [tc_set_t tc_v]; rewrite A2; lia|]. split; [rewrite Q3; exists en; auto|exact EV].
+      split; [rewrite P2; cbn [tc_set_t tc_v]; rewrite A2; lia|]. split; [rewrite Q3; exists en; auto|]. split; [exact EV|]. rewrite Q3. split; [exact Q5|].
+      unfold has_c. rewrite Q8. apply (in_bucket_after_store0 _ v h (my_sig c)).
   - intros v' h' s' H. rewrite P6 in H. subst xa. cbn [tc_set_t tc_t store_p t_p] in H.
     destruct (In_store_in _ _ _ _ _ _ _ H) as [H'|H']; [left; exact H'|]. inversion H'; subst. right; right. do 3 eexists. repeat split; auto.
   - intros v' h' s' H. destruct P11 as [(Q1 & Q2 & Q3)|(Q1 & Q2 & Q3 & Q4 & Q5 & Q6 & Q7 & Q8)].
@@ -603,16 +612,17 @@ Proof.
     left. destruct S17 as (to & hh & Hmp). exists to, (mk_ref T_PREPARE c hh v h), (my_sig c). split; [exact Hmp|]. split; [|cbn; auto].
     intro Hold. destruct (ti_mp _ _ TI _ _ _ Hold) as (_ & _ & _ & en & G & _). cbn [mk_ref r_view] in G. rewrite Hnone in G. discriminate.
   - intros v' y H. destruct (proj2 S12 _ H) as [H'|H']; [left; rewrite K3 in H'; exact H'|].
-    inversion H'; subst v' y. destruct S15 as [(Q1 & Q2)|(Q1 & Q2 & Q3 & Q4)].
+    inversion H'; subst v' y. destruct S15 as [(Q1 & Q2)|(Q1 & Q2 & Q3 & Q4 & Q5 & Q6)].
     + destruct (Q2 H) as [H''|H'']; [left; rewrite K3 in H''; exact H''|right; left; exact H''].
     + right; right. unfold lockv in *. rewrite K11 in Q1. auto.
   - intros v' y H. destruct (proj2 S13 _ H) as [H'|H']; [left; rewrite K4 in H'; exact H'|].
     inversion H'; subst v' y. destruct (S14 H) as [H''|H'']; [left; rewrite K4 in H''; exact H''|right; exact H''].
   - intros vt H. left. rewrite EV in H. exact H.
   - apply Vt_same_one. exact EV.
-  - destruct S15 as [(Q1 & Q2)|(Q1 & Q2 & Q3 & Q4)].
+  - destruct S15 as [(Q1 & Q2)|(Q1 & Q2 & Q3 & Q4 & Q5 & Q6)].
     + left. rewrite Q1. unfold lockv. exact K11.
-    + right. exists v. unfold lockv in *. rewrite K11 in Q1. split; [exact Q2|]. split; [exact Q1|]. split; [rewrite S1; symmetry; exact Ev|]. split; [rewrite Q3; exact Q4|exact EV].
+    + right. exists v. unfold lockv in *. rewrite K11 in Q1. split; [exact Q2|]. split; [exact Q1|]. split; [rewrite S1; symmetry; exact Ev|]. split; [rewrite Q3; exact Q4|]. split; [exact EV|]. rewrite Q3.
+      split; [exact Q5|]. unfold has_c. rewrite Q6. apply (in_bucket_after_store0 _ v h (my_sig c)).
   - intros v' h' s' H. destruct (S8 _ H) as [H'|H']; [left; rewrite K8 in H'; exact H'|]. inversion H'; subst. right; left. split; [reflexivity|]. rewrite S2. left; reflexivity.
   - intros v' h' s' H. destruct (S10 _ H) as [H'|(H' & H1 & H2 & H3 & H4)]; [left; rewrite K9 in H'; exact H'|]. inversion H'; subst. right; left. unfold lockv in *. rewrite K11 in H3. auto.
   - destruct Sceq as [Sceq|Sceq]; [left; rewrite Sceq; exact K9|right]. exists v, h, (my_sig c). rewrite K9 in Sceq. auto.
